@@ -1530,3 +1530,301 @@ class fConfig(object):
     b: int = 2
 __all__ = ['AConfig', 'fConfig']").
 Proof. vm_compute. split; reflexivity. Qed.
+
+(* ================================================================== python_like is satisfiable *)
+(* A small line-based parser that has every property listed in python_like, so the hypotheses
+   of the theorems above are consistent (and P_glue is not satisfied vacuously: the parser does
+   produce import statements).  It accepts blank lines, lines  import <word>  and lines starting
+   with  __all__ = [ ; everything else is a syntax error. *)
+Fixpoint lines_aux (s cur : str) : list str :=
+  match s with
+  | [] => [cur]
+  | c :: r => if ascii_eqb c nl then cur :: lines_aux r [] else lines_aux r (cur ++ [c])
+  end.
+Definition lines (s : str) : list str := lines_aux s [].
+
+Definition no_nl (s : str) : bool := forallb (fun c => negb (ascii_eqb c nl)) s.
+Definition no_space (s : str) : bool := forallb (fun c => negb (ascii_eqb c sp)) s.
+Definition quote_free (s : str) : bool := forallb (fun c => negb (ascii_eqb c (ch 39))) s.
+
+(* the texts between the 1st and 2nd, 3rd and 4th, ... single quote *)
+Fixpoint segs (s : str) (inside : bool) (cur : str) : list str :=
+  match s with
+  | [] => []
+  | c :: r =>
+    if ascii_eqb c (ch 39) then (if inside then cur :: segs r false [] else segs r true [])
+    else segs r inside (if inside then cur ++ [c] else cur)
+  end.
+
+Definition toy_line (l : str) : option (list top) :=
+  match l with
+  | [] => Some []
+  | _ =>
+    if startswith (L "import ") l then
+      (if no_space (skipn 7 l) then Some [TImport None l] else None)
+    else if startswith (L "__all__ = [") l then Some [TAll (segs l false []) l]
+    else None
+  end.
+
+Fixpoint toy_lines (ls : list str) : option (list top) :=
+  match ls with
+  | [] => Some []
+  | l :: r =>
+    match toy_line l, toy_lines r with
+    | Some a, Some b => Some (a ++ b)
+    | _, _ => None
+    end
+  end.
+
+Definition toy_parse (s : str) : option (list top) := toy_lines (lines s).
+
+Lemma lines_aux_app_nl : forall a b cur, lines_aux (a ++ nl :: b) cur = lines_aux a cur ++ lines_aux b [].
+Proof.
+  induction a as [|c a' IH]; intros b cur.
+  - cbn [app lines_aux]. rewrite ascii_eqb_refl. reflexivity.
+  - cbn [app lines_aux]. destruct (ascii_eqb c nl); [cbn [app]; rewrite IH; reflexivity|apply IH].
+Qed.
+
+Lemma lines_aux_no_nl : forall s cur, no_nl s = true -> lines_aux s cur = [cur ++ s].
+Proof.
+  induction s as [|c r IH]; intros cur H.
+  - cbn. rewrite app_nil_r. reflexivity.
+  - unfold no_nl in H. cbn [forallb] in H. apply andb_true_iff in H. destruct H as [Hc Hr].
+    fold (no_nl r) in Hr. apply negb_true_iff in Hc.
+    cbn [lines_aux]. rewrite Hc, (IH _ Hr), <- app_assoc. reflexivity.
+Qed.
+
+Lemma lines_aux_prefix : forall u v cur, no_nl u = true -> lines_aux (u ++ v) cur = lines_aux v (cur ++ u).
+Proof.
+  induction u as [|c r IH]; intros v cur H.
+  - cbn. rewrite app_nil_r. reflexivity.
+  - unfold no_nl in H. cbn [forallb] in H. apply andb_true_iff in H. destruct H as [Hc Hr].
+    fold (no_nl r) in Hr. apply negb_true_iff in Hc.
+    cbn [app lines_aux]. rewrite Hc, (IH _ _ Hr), <- app_assoc. reflexivity.
+Qed.
+
+Lemma lines_aux_head : forall v cur, exists h t, lines_aux v cur = (cur ++ h) :: t /\ no_nl h = true.
+Proof.
+  induction v as [|c r IH]; intros cur.
+  - exists [], []. cbn. rewrite app_nil_r. split; reflexivity.
+  - cbn [lines_aux]. destruct (ascii_eqb c nl) eqn:E.
+    + exists [], (lines_aux r []). rewrite app_nil_r. split; reflexivity.
+    + destruct (IH (cur ++ [c])) as [h [t [Hl Hh]]]. exists (c :: h), t. rewrite Hl, <- app_assoc.
+      split; [reflexivity|]. unfold no_nl. cbn [forallb]. fold (no_nl h). rewrite E, Hh. reflexivity.
+Qed.
+
+Lemma no_nl_app : forall a b, no_nl (a ++ b) = no_nl a && no_nl b.
+Proof. intros a b. unfold no_nl. apply forallb_app. Qed.
+
+Lemma lines_aux_elems : forall s cur, no_nl cur = true -> Forall (fun l => no_nl l = true) (lines_aux s cur).
+Proof.
+  induction s as [|c r IH]; intros cur H.
+  - constructor; [exact H|constructor].
+  - cbn [lines_aux]. destruct (ascii_eqb c nl) eqn:E.
+    + constructor; [exact H|apply IH; reflexivity].
+    + apply IH. rewrite no_nl_app, H. unfold no_nl. cbn [forallb]. rewrite E. reflexivity.
+Qed.
+
+Lemma toy_lines_app : forall x y,
+    toy_lines (x ++ y) = match toy_lines x, toy_lines y with
+                         | Some a, Some b => Some (a ++ b)
+                         | _, _ => None
+                         end.
+Proof.
+  induction x as [|l r IH]; intros y.
+  - cbn. destruct (toy_lines y); reflexivity.
+  - cbn [app toy_lines]. rewrite IH. destruct (toy_line l) as [a|]; [|reflexivity].
+    destruct (toy_lines r) as [b|]; [|reflexivity]. destruct (toy_lines y) as [c|]; [|reflexivity].
+    rewrite app_assoc. reflexivity.
+Qed.
+
+Lemma toy_parse_single : forall l, no_nl l = true -> toy_parse l = match toy_line l with Some a => Some (a ++ []) | None => None end.
+Proof.
+  intros l H. unfold toy_parse, lines. rewrite (lines_aux_no_nl l [] H). cbn [app toy_lines].
+  destruct (toy_line l); reflexivity.
+Qed.
+
+Lemma toy_line_wf : forall l tops, no_nl l = true -> toy_line l = Some tops -> Forall (wf_top toy_parse) tops.
+Proof.
+  intros l tops Hl H.
+  assert (HP : toy_parse l = Some (tops ++ [])) by (rewrite (toy_parse_single l Hl), H; reflexivity).
+  rewrite app_nil_r in HP.
+  unfold toy_line in H. destruct l as [|c r]; [inversion H; constructor|].
+  destruct (startswith (L "import ") (c :: r)).
+  - destruct (no_space (skipn 7 (c :: r))); [|discriminate H]. inversion H. subst tops.
+    constructor; [split; exact HP|constructor].
+  - destruct (startswith (L "__all__ = [") (c :: r)); [|discriminate H]. inversion H. subst tops.
+    constructor; [split; exact HP|constructor].
+Qed.
+
+Lemma toy_lines_wf : forall ls tops, Forall (fun l => no_nl l = true) ls -> toy_lines ls = Some tops ->
+    Forall (wf_top toy_parse) tops.
+Proof.
+  induction ls as [|l r IH]; intros tops Hn H.
+  - inversion H. constructor.
+  - inversion Hn as [|x y Hl Hr]; subst. cbn [toy_lines] in H.
+    destruct (toy_line l) as [a|] eqn:Ea; [|discriminate H].
+    destruct (toy_lines r) as [b|] eqn:Eb; [|discriminate H]. inversion H. subst tops.
+    apply Forall_app. split; [apply (toy_line_wf l a Hl Ea)|apply (IH b Hr eq_refl)].
+Qed.
+
+Lemma toy_lines_In : forall ls tops t, toy_lines ls = Some tops -> In t tops ->
+    exists l a, In l ls /\ toy_line l = Some a /\ In t a.
+Proof.
+  induction ls as [|l r IH]; intros tops t H Ht.
+  - inversion H. subst tops. contradiction.
+  - cbn [toy_lines] in H. destruct (toy_line l) as [a|] eqn:Ea; [|discriminate H].
+    destruct (toy_lines r) as [b|] eqn:Eb; [|discriminate H]. inversion H. subst tops.
+    apply in_app_or in Ht. destruct Ht as [Ht|Ht].
+    + exists l, a. split; [left; reflexivity|split; [exact Ea|exact Ht]].
+    + destruct (IH b t eq_refl Ht) as [l' [a' [Hl [Ha Hi]]]]. exists l', a'. split; [right; exact Hl|split; assumption].
+Qed.
+
+(* a text that parses to one import statement whose text is the whole text is one import line *)
+Lemma toy_import_shape : forall ma a, toy_parse a = Some [TImport ma a] ->
+    no_nl a = true /\ exists w, a = L "import " ++ w /\ no_space w = true.
+Proof.
+  intros ma a H. unfold toy_parse in H.
+  destruct (toy_lines_In (lines a) _ (TImport ma a) H (or_introl eq_refl)) as [l [tops [Hl [Ht Hi]]]].
+  assert (Hnl : no_nl l = true).
+  { pose proof (lines_aux_elems a [] eq_refl) as HF. rewrite Forall_forall in HF. apply HF. exact Hl. }
+  unfold toy_line in Ht. destruct l as [|c r]; [inversion Ht; subst tops; contradiction|].
+  destruct (startswith (L "import ") (c :: r)) eqn:ES.
+  - destruct (no_space (skipn 7 (c :: r))) eqn:EN; [|discriminate Ht]. inversion Ht. subst tops.
+    destruct Hi as [Hi|[]]. inversion Hi. subst a. split; [exact Hnl|].
+    apply startswith_iff in ES. destruct ES as [w Hw]. exists w. split; [exact Hw|].
+    rewrite Hw in EN. exact EN.
+  - destruct (startswith (L "__all__ = [") (c :: r)); [|discriminate Ht]. inversion Ht. subst tops.
+    destruct Hi as [Hi|[]]. discriminate Hi.
+Qed.
+
+Lemma no_space_app : forall a b, no_space (a ++ b) = no_space a && no_space b.
+Proof. intros a b. unfold no_space. apply forallb_app. Qed.
+
+Lemma toy_glue : forall pre tp ma mb a b rest,
+    toy_parse pre = Some tp -> (pre = [] \/ exists p, pre = p ++ [nl]) ->
+    toy_parse a = Some [TImport ma a] -> toy_parse b = Some [TImport mb b] ->
+    toy_parse (pre ++ a ++ b ++ rest) = None.
+Proof.
+  intros pre tp ma mb a b rest _ Hpre Ha Hb.
+  destruct (toy_import_shape ma a Ha) as [Hna [wa [Ea Hwa]]].
+  destruct (toy_import_shape mb b Hb) as [Hnb [wb [Eb Hwb]]].
+  assert (HX : toy_lines (lines_aux (a ++ b ++ rest) []) = None).
+  { rewrite (lines_aux_prefix a _ [] Hna), (lines_aux_prefix b _ _ Hnb). cbn [app].
+    destruct (lines_aux_head rest (a ++ b)) as [h [t [Hl _]]]. rewrite Hl. cbn [toy_lines].
+    assert (HL : toy_line ((a ++ b) ++ h) = None).
+    { rewrite Ea, Eb. cbn [app L String.list_ascii_of_string]. unfold toy_line.
+      cbn [startswith ascii_eqb Ascii.eqb Bool.eqb andb]. cbn [skipn].
+      rewrite !no_space_app. cbn. rewrite andb_false_r. reflexivity. }
+    rewrite HL. reflexivity. }
+  unfold toy_parse, lines. destruct Hpre as [E|[p E]]; subst pre.
+  - cbn [app]. exact HX.
+  - rewrite <- app_assoc. cbn [app]. rewrite lines_aux_app_nl, toy_lines_app, HX.
+    destruct (toy_lines (lines_aux p [])); reflexivity.
+Qed.
+
+Lemma segs_outside_quote_free : forall s, quote_free s = true -> forall r, segs (s ++ r) false [] = segs r false [].
+Proof.
+  induction s as [|c s' IH]; intros H r; [reflexivity|].
+  unfold quote_free in H. cbn [forallb] in H. apply andb_true_iff in H. destruct H as [Hc Hs].
+  fold (quote_free s') in Hs. apply negb_true_iff in Hc.
+  cbn [app segs]. rewrite Hc. apply IH. exact Hs.
+Qed.
+
+Lemma segs_inside : forall n cur r, quote_free n = true ->
+    segs (n ++ ch 39 :: r) true cur = (cur ++ n) :: segs r false [].
+Proof.
+  induction n as [|c n' IH]; intros cur r H.
+  - cbn [app segs]. rewrite ascii_eqb_refl, app_nil_r. reflexivity.
+  - unfold quote_free in H. cbn [forallb] in H. apply andb_true_iff in H. destruct H as [Hc Hn].
+    fold (quote_free n') in Hn. apply negb_true_iff in Hc.
+    cbn [app segs]. rewrite Hc, (IH _ _ Hn), <- app_assoc. reflexivity.
+Qed.
+
+Lemma segs_quote1 : forall n r, quote_free n = true -> segs (quote1 n ++ r) false [] = n :: segs r false [].
+Proof.
+  intros n r H. unfold quote1. cbn [app segs]. rewrite ascii_eqb_refl.
+  rewrite <- app_assoc. cbn [app]. rewrite (segs_inside n [] r H). reflexivity.
+Qed.
+
+Lemma segs_items : forall names tail, forallb quote_free names = true -> quote_free tail = true ->
+    segs (join (L ", ") (map quote1 names) ++ tail) false [] = names.
+Proof.
+  induction names as [|n r IH]; intros tail Hn Ht.
+  - cbn [map join app]. rewrite <- (app_nil_r tail). rewrite (segs_outside_quote_free tail Ht []). reflexivity.
+  - cbn in Hn. apply andb_true_iff in Hn. destruct Hn as [Hq Hr]. destruct r as [|n2 r2].
+    + cbn [map join]. rewrite (segs_quote1 n tail Hq). f_equal.
+      rewrite <- (app_nil_r tail). rewrite (segs_outside_quote_free tail Ht []). reflexivity.
+    + change (join (L ", ") (map quote1 (n :: n2 :: r2)))
+        with (quote1 n ++ L ", " ++ join (L ", ") (map quote1 (n2 :: r2))).
+      rewrite <- !app_assoc. rewrite (segs_quote1 n _ Hq). f_equal.
+      rewrite (segs_outside_quote_free (L ", ") eq_refl). apply IH; assumption.
+Qed.
+
+Lemma safe_name_facts : forall n, safe_name n = true -> quote_free n = true /\ no_nl n = true.
+Proof.
+  induction n as [|c r IH]; intros H; [split; reflexivity|].
+  cbn [safe_name forallb] in H. apply andb_true_iff in H. destruct H as [Hc Hr].
+  destruct (IH Hr) as [Hq Hn]. unfold safe_char in Hc.
+  apply andb_true_iff in Hc. destruct Hc as [Hc1 Hc3]. apply andb_true_iff in Hc1. destruct Hc1 as [Hc1 Hc2].
+  apply negb_true_iff in Hc3. apply orb_false_iff in Hc3. destruct Hc3 as [Hm _].
+  cbn. rewrite Hq, Hn, !andb_true_r. split.
+  - apply negb_true_iff. unfold mem_c in Hm. cbn [L String.list_ascii_of_string existsb] in Hm.
+    apply orb_false_iff in Hm. apply Hm.
+  - apply negb_true_iff. apply ascii_eqb_neq. intros E. subst c. cbn in Hc1. discriminate Hc1.
+Qed.
+
+Lemma toy_all : forall names, forallb safe_name names = true ->
+    toy_parse (all_text names) = Some [TAll names (all_text names)].
+Proof.
+  intros names H.
+  assert (HQ : forallb quote_free names = true /\ forallb no_nl names = true).
+  { induction names as [|n r IH]; [split; reflexivity|].
+    cbn in H. apply andb_true_iff in H. destruct H as [Hn Hr]. destruct (IH Hr) as [A B].
+    destruct (safe_name_facts n Hn) as [C D]. cbn. rewrite A, B, C, D. split; reflexivity. }
+  destruct HQ as [HQ HN].
+  assert (Hnl : no_nl (all_text names) = true).
+  { unfold all_text. rewrite !no_nl_app. cbn [no_nl forallb L String.list_ascii_of_string]. cbn.
+    rewrite andb_true_r. clear H HQ. induction names as [|n r IH]; [reflexivity|].
+    cbn in HN. apply andb_true_iff in HN. destruct HN as [Hn Hr]. destruct r as [|n2 r2].
+    - cbn [map join]. unfold quote1. change (ch 39 :: n ++ [ch 39]) with ([ch 39] ++ n ++ [ch 39]).
+      rewrite !no_nl_app, Hn. reflexivity.
+    - change (join (L ", ") (map quote1 (n :: n2 :: r2)))
+        with (quote1 n ++ L ", " ++ join (L ", ") (map quote1 (n2 :: r2))).
+      rewrite !no_nl_app, (IH Hr). unfold quote1. change (ch 39 :: n ++ [ch 39]) with ([ch 39] ++ n ++ [ch 39]).
+      rewrite !no_nl_app, Hn. reflexivity. }
+  rewrite (toy_parse_single _ Hnl).
+  assert (HS : segs (all_text names) false [] = names).
+  { unfold all_text. rewrite (segs_outside_quote_free (L "__all__ = [") eq_refl).
+    apply segs_items; [exact HQ|reflexivity]. }
+  unfold toy_line. unfold all_text at 1. cbn [L String.list_ascii_of_string app].
+  cbn [startswith ascii_eqb Ascii.eqb Bool.eqb andb].
+  fold (L "__all__ = ["). change (ch 95 :: ch 95 :: _) with (all_text names) at 1.
+  rewrite HS. reflexivity.
+Qed.
+
+Theorem python_like_toy : python_like toy_parse.
+Proof.
+  constructor.
+  - reflexivity.
+  - intros a b ta tb Ha Hb. unfold toy_parse, lines in *.
+    rewrite lines_aux_app_nl, toy_lines_app, Ha, Hb. reflexivity.
+  - intros b. unfold toy_parse, lines. cbn [lines_aux]. rewrite ascii_eqb_refl. cbn [toy_lines toy_line].
+    destruct (toy_lines (lines_aux b [])); reflexivity.
+  - intros a. unfold toy_parse, lines. rewrite lines_aux_app_nl, toy_lines_app. cbn.
+    destruct (toy_lines (lines_aux a [])) as [t|]; [rewrite app_nil_r|]; reflexivity.
+  - intros s tops H. unfold toy_parse in H. apply (toy_lines_wf (lines s)); [|exact H].
+    apply lines_aux_elems. reflexivity.
+  - exact toy_all.
+  - exact toy_glue.
+Qed.
+
+(* the toy parser does produce import statements, so P_glue says something *)
+Example toy_parses_imports :
+  toy_parse (L "import os" ++ [nl] ++ L "import sys" ++ [nl]) = Some [TImport None (L "import os"); TImport None (L "import sys")]
+  /\ toy_parse (L "import os" ++ L "import sys") = None.
+Proof. vm_compute. split; reflexivity. Qed.
+
+(* consequently the refutation is not vacuous: there is a Python-like parser, and C19 fails for it *)
+Theorem C19_refuted_nonvacuous : exists ps, python_like ps /\ ~ C19_statement ps.
+Proof. exists toy_parse. split; [exact python_like_toy|apply C19_refuted_lemma; exact python_like_toy]. Qed.
